@@ -1,7 +1,13 @@
 package event
 
 import (
+	"bytes"
+
+	"github.com/golang/snappy"
+	"github.com/kelindar/binary"
+
 	"github.com/emitter-io/emitter/internal/event/crdt"
+	"github.com/emitter-io/emitter/internal/message"
 	"github.com/emitter-io/emitter/internal/verifrt"
 )
 
@@ -21,3 +27,64 @@ func VerifC09Keys(v *verifrt.T) {
 func (st *State) VerifRawSub(key string, add, del int64) {
 	st.subsets[typeSub].(*crdt.Volatile).VerifRaw(key, add, del)
 }
+
+func c09esSnappyDecode(dst, src []byte) ([]byte, error) { return append([]byte(nil), src...), nil }
+
+// binary.Unmarshal into a *map[uint8]crdt.Volatile is kelindar/binary's reflectMapCodec
+// (codecs.go v1.0.19: entry count, then per entry a varuint key and the value through its
+// codec - here emitter's own codecVolatile, executed from source), transcribed over the real
+// Decoder.
+func c09esUnmarshal(b []byte, out interface{}) error {
+	d := binary.NewDecoder(bytes.NewBuffer(b))
+	m := out.(*map[uint8]crdt.Volatile)
+	l, err := d.ReadUvarint()
+	if err != nil {
+		return err
+	}
+	*m = map[uint8]crdt.Volatile{}
+	for i := 0; i < int(l); i++ {
+		k, err := d.ReadUvarint()
+		if err != nil {
+			return err
+		}
+		var vol crdt.Volatile
+		if err = crdt.VerifDecodeVolatile(d, &vol); err != nil {
+			return err
+		}
+		(*m)[uint8(k)] = vol
+	}
+	return nil
+}
+
+// VerifC09DecodeState: the gossip payload itself - arbitrary bytes from the cluster port -
+// through the real DecodeState and then used the way Swarm.merge uses the result on the
+// mesh goroutine: iterated, merged into the local state, its connections listed. A payload
+// that is accepted must be usable whatever subsets it carries (none, some, unknown types).
+func VerifC09DecodeState(v *verifrt.T) {
+	b := v.Bytes(v.Choice(v.Bound("statebytes")+1, "n"), "s")
+	in := b
+	if !v.Symbolic() {
+		in = snappy.Encode(nil, b)
+	}
+	var st *State
+	var err error
+	panicked := v.Try(func() { st, err = DecodeState(in) })
+	v.Assert(!panicked, "C09.state.decode-no-panic")
+	if err != nil {
+		v.Reach("state-rejected")
+		return
+	}
+	v.Reach("state-accepted")
+	local := NewState("")
+	local.Add(&Subscription{Peer: 2, Conn: 3, Ssid: message.Ssid{1, 2}, Channel: []byte("a/")})
+	panicked = v.Try(func() {
+		st.Subscriptions(func(*Subscription, Value) {})
+		_ = local.Merge(st)
+		st.Subscriptions(func(*Subscription, Value) {})
+		st.ConnectionsOf(2, func(*Connection) {})
+		_ = local.Has(&Subscription{Peer: 2, Conn: 3, Ssid: message.Ssid{1, 2}})
+	})
+	v.Assert(!panicked, "C09.state.accepted-payload-is-usable")
+}
+
+func c09esMarshal(val interface{}) ([]byte, error) { return []byte{}, nil }
